@@ -183,4 +183,21 @@ theorem Store.getPolicy_update (s : Store) (sec pt sec' pt' : String) (g : List 
 /-- every rule set of the store is duplicate free -/
 def Store.WF (s : Store) : Prop := ∀ sec pt, (s.getPolicy sec pt).Nodup
 
+/-- `List.erase` does not depend on which lawful `BEq` instance elaboration picked -/
+theorem erase_inst_irrel {α : Type} [DecidableEq α] [b : BEq α] [LawfulBEq α] (l : List α) (a : α) :
+    @List.erase _ instBEqOfDecidableEq l a = @List.erase _ b l a := by
+  induction l with
+  | nil => rfl
+  | cons x xs ih =>
+    simp only [List.erase_cons]
+    rw [ih]
+    have : (@BEq.beq _ instBEqOfDecidableEq x a) = (@BEq.beq _ b x a) := by
+      by_cases h : x = a
+      · subst h; simp
+      · have h1 : (@BEq.beq _ b x a) = false := by simpa using h
+        have h2 : (@BEq.beq _ instBEqOfDecidableEq x a) = false := by simpa using h
+        rw [h1, h2]
+    rw [this]
+
+
 end Casbin
